@@ -38,6 +38,8 @@ def run(rep, tier):
     # add_triangle / add_rect / add_polygon dispatch degenerate shapes on HasDimensions (tables shared with C01)
     from . import dims
     dims.run(rep, F, "R6.7")
+    from . import c05 as _c05
+    _c05.offset_witnesses(rep, F, rule="R6.12")      # the weights of areal members are their areas: they must survive a translation by 1e8
     from . import c01 as _c01
     from ..report import Alias as _Alias
     _c01.dimension_tables(_Alias(rep, "R6.7"), F)      # the container folds (dimensions / boundary_dimensions / is_closed over the members; C01 R1.6)
